@@ -99,7 +99,9 @@ def gen_case(rng, tier, idx):
         if kind.startswith("datasource_provider"):
             s["content"] = [gen_content(rng, long_ok) for _ in range(rng.randint(1, 3))]
         if kind == "printf":
-            s["text"] = "".join(rng.choice("ab c:=") for _ in range(rng.randint(1, 10)))
+            # the spec index makes the mangled command name (the data location) unique: mangle_command maps every
+            # non-word character to '_', so commands differing only in punctuation would share one location
+            s["text"] = "t%d" % k + "".join(rng.choice("ab c:=") for _ in range(rng.randint(1, 10)))
         specs.append(s)
     case = {"files": files, "specs": specs, "subset_seed": rng.getrandbits(32)}
     if rng.random() < 0.4:
@@ -126,6 +128,88 @@ def norm_eq(P, L):
         return P == L
     P, L = list(P), list(L)
     return L == P or (bool(P) and P[-1] == "" and L == P[:-1])
+
+
+def build_specset(spec, root, uid, modname, created, reinvoked):
+    """the generated SpecSet: registry points, host implementations (class I) and implementations for the
+    serialized-archive context (class J); returns the list of registry points"""
+    from insights.core import spec_factory as sf
+    from insights.core.context import HostContext, SerializedArchiveContext
+    from insights.core.exceptions import CalledProcessError
+    from insights.core.plugins import datasource
+    # ---- build the spec set ------------------------------------------
+    dct = {"__module__": modname}
+    multi_kinds = ("glob_file", "foreach_collect", "foreach_execute", "container_collect", "container_execute", "datasource_provider_list")
+    for k, s in enumerate(spec["specs"]):
+        dct["s%d" % k] = sf.RegistryPoint(multi_output=s["kind"] in multi_kinds, raw=s["kind"] == "raw_file")
+    S = type("S%d" % uid, (sf.SpecSet,), dct)
+    body = {"__module__": modname}
+    body2 = {"__module__": modname}
+
+    def fn_ds(name, fn, deps):
+        fn.__name__ = fn.__qualname__ = name
+        fn.__module__ = modname
+        d = datasource(*deps)(fn)
+        created.append(d)
+        return d
+    for k, s in enumerate(spec["specs"]):
+        kind, sa, path = s["kind"], s.get("save_as"), s["path"]
+        sa_dir = {"save_as": sa} if sa and sa.endswith("/") else {}
+        sa_any = {"save_as": sa} if sa else {}
+        sa_file = {"save_as": sa} if sa and not sa.endswith("/") else {}
+        if kind == "simple_file":
+            d = sf.simple_file(path, context=HostContext, **sa_any)
+        elif kind == "raw_file":
+            d = sf.simple_file(path, context=HostContext, kind=sf.RawFileProvider, **sa_any)
+        elif kind == "glob_file":
+            d = sf.glob_file(path, context=HostContext, **sa_dir)
+        elif kind == "first_file":
+            d = sf.first_file(["/no/such/file", path], context=HostContext, **sa_any)
+        elif kind == "foreach_collect":
+            pv = fn_ds("prov%d_%d" % (uid, k), (lambda items: (lambda broker: list(items)))(s["items"]), [HostContext])
+            d = sf.foreach_collect(pv, "/%s", context=HostContext, **sa_dir)
+        elif kind == "simple_command":
+            d = sf.simple_command("/bin/cat %s" % os.path.join(root, path.lstrip("/")), **sa_file)
+        elif kind == "printf":
+            d = sf.simple_command("/usr/bin/printf %s" % ("'" + s["text"].replace("'", "") + "\\n\\nend'"), **sa_file)
+        elif kind == "foreach_execute":
+            pv = fn_ds("prov%d_%d" % (uid, k), (lambda items: (lambda broker: [os.path.join(root, i) for i in items]))(s["items"]), [HostContext])
+            d = sf.foreach_execute(pv, "/bin/cat %s")
+        elif kind == "container_collect":
+            pv = fn_ds("prov%d_%d" % (uid, k), (lambda items: (lambda broker: [tuple(i) for i in items]))(s["items"]), [HostContext])
+            d = sf.container_collect(pv, path)
+        elif kind == "container_execute":
+            pv = fn_ds("prov%d_%d" % (uid, k), (lambda items, p: (lambda broker: [tuple(i) + (p,) for i in items]))(s["items"], path), [HostContext])
+            d = sf.container_execute(pv, "cat %s")
+        elif kind == "datasource_provider":
+            d = fn_ds("mem%d_%d" % (uid, k), (lambda s_, k_: (lambda broker: sf.DatasourceProvider(
+                list(s_["content"][0]), relative_path="mem/dir/file%d" % k_, save_as=(s_.get("save_as") or "").lstrip("/") or None,
+                ctx=broker[HostContext])))(s, k), [HostContext])
+        elif kind == "datasource_provider_list":
+            d = fn_ds("meml%d_%d" % (uid, k), (lambda s_, k_: (lambda broker: [sf.DatasourceProvider(
+                list(c), relative_path="meml/%d/file%d" % (k_, j), ctx=broker[HostContext]) for j, c in enumerate(s_["content"])]))(s, k), [HostContext])
+        elif kind == "failing":
+            def boom(broker, _k=k):
+                raise RuntimeError("boom-%d" % _k)
+            d = fn_ds("boom%d_%d" % (uid, k), boom, [HostContext])
+        elif kind == "failing_cpe":
+            def cpe(broker, _k=k):
+                raise CalledProcessError(3, "cmd-%d" % _k, "output")
+            d = fn_ds("cpe%d_%d" % (uid, k), cpe, [HostContext])
+        else:
+            raise ValueError(kind)
+        created.append(d)
+        body["s%d" % k] = d
+
+        def again(broker, _k=k):
+            reinvoked.append(_k)
+            return sf.DatasourceProvider(["recollected"], relative_path="again/%d" % _k)
+        body2["s%d" % k] = fn_ds("again%d_%d" % (uid, k), again, [SerializedArchiveContext])
+    type("I%d" % uid, (S,), body)
+    type("J%d" % uid, (S,), body2)
+    pts = [getattr(S, "s%d" % k) for k in range(len(spec["specs"]))]
+    created.extend(pts)
+    return pts
 
 
 def run_case(spec, ctx):
@@ -166,79 +250,8 @@ def run_case(spec, ctx):
                     cmd[0] = rest
                 return HostContext.check_output(self, cmd, timeout=timeout, keep_rc=keep_rc, env=env, signum=signum)
         sf.which = which
-        # ---- build the spec set ------------------------------------------
-        dct = {"__module__": modname}
-        multi_kinds = ("glob_file", "foreach_collect", "foreach_execute", "container_collect", "container_execute", "datasource_provider_list")
-        for k, s in enumerate(spec["specs"]):
-            dct["s%d" % k] = sf.RegistryPoint(multi_output=s["kind"] in multi_kinds, raw=s["kind"] == "raw_file")
-        S = type("S%d" % uid, (sf.SpecSet,), dct)
-        body = {"__module__": modname}
-        body2 = {"__module__": modname}
         reinvoked = []
-
-        def fn_ds(name, fn, deps):
-            fn.__name__ = fn.__qualname__ = name
-            fn.__module__ = modname
-            d = datasource(*deps)(fn)
-            created.append(d)
-            return d
-        for k, s in enumerate(spec["specs"]):
-            kind, sa, path = s["kind"], s.get("save_as"), s["path"]
-            sa_dir = {"save_as": sa} if sa and sa.endswith("/") else {}
-            sa_any = {"save_as": sa} if sa else {}
-            sa_file = {"save_as": sa} if sa and not sa.endswith("/") else {}
-            if kind == "simple_file":
-                d = sf.simple_file(path, context=HostContext, **sa_any)
-            elif kind == "raw_file":
-                d = sf.simple_file(path, context=HostContext, kind=sf.RawFileProvider, **sa_any)
-            elif kind == "glob_file":
-                d = sf.glob_file(path, context=HostContext, **sa_dir)
-            elif kind == "first_file":
-                d = sf.first_file(["/no/such/file", path], context=HostContext, **sa_any)
-            elif kind == "foreach_collect":
-                pv = fn_ds("prov%d_%d" % (uid, k), (lambda items: (lambda broker: list(items)))(s["items"]), [HostContext])
-                d = sf.foreach_collect(pv, "/%s", context=HostContext, **sa_dir)
-            elif kind == "simple_command":
-                d = sf.simple_command("/bin/cat %s" % os.path.join(root, path.lstrip("/")), **sa_file)
-            elif kind == "printf":
-                d = sf.simple_command("/usr/bin/printf %s" % ("'" + s["text"].replace("'", "") + "\\n\\nend'"), **sa_file)
-            elif kind == "foreach_execute":
-                pv = fn_ds("prov%d_%d" % (uid, k), (lambda items: (lambda broker: [os.path.join(root, i) for i in items]))(s["items"]), [HostContext])
-                d = sf.foreach_execute(pv, "/bin/cat %s")
-            elif kind == "container_collect":
-                pv = fn_ds("prov%d_%d" % (uid, k), (lambda items: (lambda broker: [tuple(i) for i in items]))(s["items"]), [HostContext])
-                d = sf.container_collect(pv, path)
-            elif kind == "container_execute":
-                pv = fn_ds("prov%d_%d" % (uid, k), (lambda items, p: (lambda broker: [tuple(i) + (p,) for i in items]))(s["items"], path), [HostContext])
-                d = sf.container_execute(pv, "cat %s")
-            elif kind == "datasource_provider":
-                d = fn_ds("mem%d_%d" % (uid, k), (lambda s_, k_: (lambda broker: sf.DatasourceProvider(
-                    list(s_["content"][0]), relative_path="mem/dir/file%d" % k_, save_as=(s_.get("save_as") or "").lstrip("/") or None,
-                    ctx=broker[HostContext])))(s, k), [HostContext])
-            elif kind == "datasource_provider_list":
-                d = fn_ds("meml%d_%d" % (uid, k), (lambda s_, k_: (lambda broker: [sf.DatasourceProvider(
-                    list(c), relative_path="meml/%d/file%d" % (k_, j), ctx=broker[HostContext]) for j, c in enumerate(s_["content"])]))(s, k), [HostContext])
-            elif kind == "failing":
-                def boom(broker, _k=k):
-                    raise RuntimeError("boom-%d" % _k)
-                d = fn_ds("boom%d_%d" % (uid, k), boom, [HostContext])
-            elif kind == "failing_cpe":
-                def cpe(broker, _k=k):
-                    raise CalledProcessError(3, "cmd-%d" % _k, "output")
-                d = fn_ds("cpe%d_%d" % (uid, k), cpe, [HostContext])
-            else:
-                raise ValueError(kind)
-            created.append(d)
-            body["s%d" % k] = d
-
-            def again(broker, _k=k):
-                reinvoked.append(_k)
-                return sf.DatasourceProvider(["recollected"], relative_path="again/%d" % _k)
-            body2["s%d" % k] = fn_ds("again%d_%d" % (uid, k), again, [SerializedArchiveContext])
-        type("I%d" % uid, (S,), body)
-        type("J%d" % uid, (S,), body2)
-        pts = [getattr(S, "s%d" % k) for k in range(len(spec["specs"]))]
-        created.extend(pts)
+        pts = build_specset(spec, root, uid, modname, created, reinvoked)
         # ---- collect + persist -------------------------------------------
         out = os.path.join(base, "out")
         br = dr.Broker()
